@@ -261,10 +261,499 @@ def _corr(ctx, name, imports, defs, cases, okf, ctype, show):
     ctx.count(n=len(cases))
 
 
+# ---------------------------------------------------------------------------
+# oracle on the real implementation
+# ---------------------------------------------------------------------------
+
+SRC_HEADER = '''\
+import builtins, collections, enum
+from base64 import encodebytes
+from dataclasses import dataclass, field
+from typing import *
+from mashumaro import DataClassDictMixin, pass_through
+from mashumaro.config import (BaseConfig, TO_DICT_ADD_BY_ALIAS_FLAG, TO_DICT_ADD_OMIT_NONE_FLAG,
+                              ADD_DIALECT_SUPPORT, ADD_SERIALIZATION_CONTEXT)
+from mashumaro.codecs.basic import BasicDecoder, BasicEncoder
+from mashumaro.exceptions import (ExtraKeysError, InvalidFieldValue, MissingField, MissingDiscriminatorError,
+                                  SuitableVariantNotFoundError)
+from mashumaro.types import Alias, Discriminator
+OUT = []
+def eq(what, fn, exp):
+    try:
+        got = fn()
+    except Exception as e:
+        OUT.append([what, "raised " + type(e).__name__ + ": " + str(e)[:200], repr(exp)])
+        return
+    if type(got) is not type(exp) or got != exp:
+        OUT.append([what, repr(got), repr(exp)])
+def raises(what, fn, exc, attr=None, val=None):
+    try:
+        r = fn()
+    except exc as e:
+        if attr is not None and getattr(e, attr) != val:
+            OUT.append([what + " ." + attr, repr(getattr(e, attr)), repr(val)])
+        return
+    except Exception as e:
+        OUT.append([what, type(e).__name__ + ": " + str(e)[:200], exc.__name__])
+        return
+    OUT.append([what, "returned " + repr(r), exc.__name__])
+S = %(S)s
+'''
+
+def header(s: str) -> str:
+    return SRC_HEADER.replace('%(S)s', repr(s))
+
+
+# value types of the aliased field: trivial (value is used as it is), with default, non-trivial packer, optional
+FIELD_KINDS = {
+    "int": ("int", "5", "5", ""),
+    "int-default": ("int", "5", "5", "default=1, "),
+    "list": ("List[int]", "[5, 6]", "[5, 6]", ""),
+    "opt-list-default": ("Optional[List[int]]", "[5]", "[5]", "default=None, "),
+    "date": ("__import__('datetime').date", "__import__('datetime').date(2020, 1, 2)", "'2020-01-02'", ""),
+}
+
+
+def _config(opts: dict, extra: str = "") -> str:
+    lines = ["    class Config(BaseConfig):"]
+    for k, v in opts.items():
+        lines.append(f"        {k} = {v}")
+    if extra:
+        lines.append(extra)
+    if len(lines) == 1:
+        lines.append("        pass")
+    return "\n".join(lines)
+
+
+def src_alias(s, how, fk, opts):
+    """field alias given by metadata / Annotated Alias / Config.aliases"""
+    ftype, val, wire, dflt = FIELD_KINDS[fk]
+    cgo = [o for o in ("TO_DICT_ADD_BY_ALIAS_FLAG", "TO_DICT_ADD_OMIT_NONE_FLAG") if opts.get(o)]
+    copts = {k: v for k, v in opts.items() if k[0].islower()}
+    if cgo:
+        copts["code_generation_options"] = "[" + ", ".join(cgo) + "]"
+    extra = ""
+    if how == "metadata":
+        fld = f"    x: {ftype} = field({dflt}metadata={{'alias': S}})"
+    elif how == "annotated":
+        fld = f"    x: Annotated[{ftype}, Alias(S)]" + (f" = field({dflt[:-2]})" if dflt else "")
+    else:
+        fld = f"    x: {ftype}" + (f" = field({dflt[:-2]})" if dflt else "")
+        copts["aliases"] = "{'x': S}"
+    body = header(s) + f"""
+@dataclass
+class A(DataClassDictMixin):
+{fld}
+    y: int = 2
+{_config(copts)}
+V = {val}
+W = {wire}
+"""
+    by_alias_default = bool(opts.get("serialize_by_alias"))
+    flag = bool(opts.get("TO_DICT_ADD_BY_ALIAS_FLAG"))
+    chk = ["def check():"]
+    chk.append("    eq('from_dict by alias', lambda: A.from_dict({S: W, 'y': 3}), A(V, 3))")
+    if opts.get("allow_deserialization_not_by_alias"):
+        chk.append("    eq('from_dict by name', lambda: A.from_dict({'x': W, 'y': 3}), A(V, 3))")
+        chk.append("    eq('alias wins over name', lambda: A.from_dict({S: W, 'x': None, 'y': 3}), A(V, 3))")
+    elif not dflt and opts.get("forbid_extra_keys"):
+        chk.append("    if S != 'x': raises('alias required', lambda: A.from_dict({'x': W, 'y': 3}), ExtraKeysError, 'extra_keys', {'x'})")
+    elif not dflt:
+        chk.append("    if S != 'x': raises('alias required', lambda: A.from_dict({'x': W, 'y': 3}), MissingField, 'field_name', 'x')")
+    if opts.get("forbid_extra_keys"):
+        chk.append("    raises('extra key', lambda: A.from_dict({S: W, 'y': 3, S + '~': 1}), ExtraKeysError, 'extra_keys', {S + '~'})")
+    chk.append(f"    eq('to_dict', lambda: A(V, 3).to_dict(), {{{'S' if by_alias_default else repr('x')}: W, 'y': 3}})")
+    if flag:
+        chk.append("    eq('to_dict(by_alias=True)', lambda: A(V, 3).to_dict(by_alias=True), {S: W, 'y': 3})")
+        chk.append("    eq('to_dict(by_alias=False)', lambda: A(V, 3).to_dict(by_alias=False), {'x': W, 'y': 3})")
+    chk.append("    return OUT")
+    return body + "\n".join(chk) + "\n"
+
+
+def src_typeddict(s, total, codec):
+    body = header(s) + f"""
+TD = TypedDict('TD', {{S: int, 'other': List[int]}}, total={total})
+@dataclass
+class A(DataClassDictMixin):
+    t: TD
+    u: Optional[TD] = None
+def check():
+    eq('from_dict', lambda: A.from_dict({{'t': {{S: 1, 'other': [2]}}}}), A({{S: 1, 'other': [2]}}))
+    eq('to_dict', lambda: A({{S: 1, 'other': [2]}}).to_dict(), {{'t': {{S: 1, 'other': [2]}}, 'u': None}})
+    eq('nested', lambda: A.from_dict({{'t': {{S: 1, 'other': []}}, 'u': {{S: 7, 'other': [1]}}}}).u, {{S: 7, 'other': [1]}})
+"""
+    if total:
+        body += "    raises('missing key', lambda: A.from_dict({'t': {'other': [2]}}), InvalidFieldValue, 'field_name', 't')\n"
+    else:
+        body += "    eq('optional key absent', lambda: A.from_dict({'t': {'other': [2]}}).t, {'other': [2]})\n"
+        body += "    eq('optional key absent to_dict', lambda: A({'other': [2]}).to_dict()['t'], {'other': [2]})\n"
+    if codec:
+        body += "    eq('decoder', lambda: BasicDecoder(TD).decode({S: 1, 'other': [2]}), {S: 1, 'other': [2]})\n"
+        body += "    eq('encoder', lambda: BasicEncoder(TD).encode({S: 1, 'other': [2]}), {S: 1, 'other': [2]})\n"
+    return body + "    return OUT\n"
+
+
+def src_discriminator(s, how):
+    if how == "config":
+        return header(s) + """
+@dataclass
+class V(DataClassDictMixin):
+    class Config(BaseConfig):
+        discriminator = Discriminator(field=S, include_subtypes=True)
+@dataclass
+class V1(V):
+    a: int = 0
+@dataclass
+class V2(V):
+    b: int = 0
+setattr(V1, S, 'one')
+setattr(V2, S, 'two')
+def check():
+    eq('variant one', lambda: V.from_dict({S: 'one', 'a': 3}), V1(3))
+    eq('variant two', lambda: V.from_dict({S: 'two', 'b': 4}), V2(4))
+    raises('missing tag', lambda: V.from_dict({'a': 3}), MissingDiscriminatorError, 'field_name', S)
+    raises('unknown tag', lambda: V.from_dict({S: 'three'}), SuitableVariantNotFoundError, 'discriminator_name', S)
+    return OUT
+"""
+    if how == "config-forbid":
+        return header(s) + """
+@dataclass
+class V(DataClassDictMixin):
+    class Config(BaseConfig):
+        discriminator = Discriminator(field=S, include_subtypes=True)
+        forbid_extra_keys = True
+@dataclass
+class V1(V):
+    a: int = 0
+setattr(V1, S, 'one')
+def check():
+    eq('variant one', lambda: V.from_dict({S: 'one', 'a': 3}), V1(3))
+    raises('extra key', lambda: V.from_dict({S: 'one', 'a': 3, S + '~': 1}), ExtraKeysError, 'extra_keys', {S + '~'})
+    return OUT
+"""
+    return header(s) + """
+@dataclass
+class V1(DataClassDictMixin):
+    a: int = 0
+@dataclass
+class V2(DataClassDictMixin):
+    b: int = 0
+setattr(V1, S, 'one')
+setattr(V2, S, 'two')
+@dataclass
+class H(DataClassDictMixin):
+    v: Annotated[Union[V1, V2], Discriminator(field=S, include_supertypes=True)]
+def check():
+    eq('variant one', lambda: H.from_dict({'v': {S: 'one', 'a': 3}}), H(V1(3)))
+    eq('variant two', lambda: H.from_dict({'v': {S: 'two', 'b': 4}}), H(V2(4)))
+    raises('missing tag', lambda: H.from_dict({'v': {'a': 3}}), InvalidFieldValue, 'field_name', 'v')
+    eq('decoder', lambda: BasicDecoder(Annotated[Union[V1, V2], Discriminator(field=S, include_supertypes=True)]).decode({S: 'two', 'b': 1}), V2(1))
+    return OUT
+"""
+
+
+def src_literal(s, how):
+    if how == "str":
+        return header(s) + """
+@dataclass
+class A(DataClassDictMixin):
+    x: Literal[S, 'other', 7]
+    y: Optional[Literal[S]] = None
+def check():
+    eq('from_dict', lambda: A.from_dict({'x': S}), A(S))
+    eq('from_dict y', lambda: A.from_dict({'x': 7, 'y': S}), A(7, S))
+    eq('to_dict', lambda: A(S, S).to_dict(), {'x': S, 'y': S})
+    raises('other value', lambda: A.from_dict({'x': S + '~'}), InvalidFieldValue, 'field_name', 'x')
+    raises('other value out', lambda: A(S + '~').to_dict(), InvalidFieldValue, 'field_name', 'x')
+    eq('decoder', lambda: BasicDecoder(Literal[S]).decode(S), S)
+    eq('encoder', lambda: BasicEncoder(Literal[S]).encode(S), S)
+    return OUT
+"""
+    if how == "bytes":
+        return header(s) + """
+B = S.encode('utf-8', 'surrogatepass')
+@dataclass
+class A(DataClassDictMixin):
+    x: Literal[B, b'other']
+def check():
+    w = encodebytes(B).decode()
+    eq('from_dict', lambda: A.from_dict({'x': w}), A(B))
+    eq('to_dict', lambda: A(B).to_dict(), {'x': w})
+    raises('other value', lambda: A.from_dict({'x': encodebytes(B + b'~').decode()}), InvalidFieldValue, 'field_name', 'x')
+    return OUT
+"""
+    if how == "enum-value":
+        return header(s) + """
+E = enum.Enum('E', {'M': S, 'N': S + '~'})
+@dataclass
+class A(DataClassDictMixin):
+    x: E
+    y: Literal[E.M] = E.M
+def check():
+    eq('from_dict', lambda: A.from_dict({'x': S, 'y': S}), A(E.M, E.M))
+    eq('from_dict N', lambda: A.from_dict({'x': S + '~'}), A(E.N))
+    eq('to_dict', lambda: A(E.N).to_dict(), {'x': S + '~', 'y': S})
+    raises('literal other member', lambda: A.from_dict({'x': S, 'y': S + '~'}), InvalidFieldValue, 'field_name', 'y')
+    return OUT
+"""
+    if how == "default":
+        return header(s) + """
+@dataclass
+class A(DataClassDictMixin):
+    x: str = S
+    t: Tuple[str, int] = (S, 1)
+    class Config(BaseConfig):
+        omit_default = True
+def check():
+    eq('default omitted', lambda: A().to_dict(), {})
+    eq('other kept', lambda: A(S + '~', (S + '~', 1)).to_dict(), {'x': S + '~', 't': [S + '~', 1]})
+    eq('from_dict', lambda: A.from_dict({}), A(S, (S, 1)))
+    return OUT
+"""
+    raise ValueError(how)
+
+
+def src_namedtuple(s, how):
+    """s is an identifier here (Python refuses anything else as a named-tuple field name)"""
+    return header(s) + f"""
+NT = collections.namedtuple('NT', [S, 'other'])
+@dataclass
+class A(DataClassDictMixin):
+    t: {'NT' if how == 'config' else "NT = field(metadata={'serialize': 'as_dict', 'deserialize': 'as_dict'})"}
+    class Config(BaseConfig):
+        namedtuple_as_dict = {how == 'config'}
+def check():
+    eq('to_dict', lambda: A(NT(1, 2)).to_dict(), {{'t': {{S: 1, 'other': 2}}}})
+    eq('from_dict', lambda: A.from_dict({{'t': {{S: 1, 'other': 2}}}}), A(NT(1, 2)))
+    return OUT
+"""
+
+
+def src_enum_member_name(s):
+    """known finding C16/literal-enum-member-name: the member NAME is spliced as an attribute access"""
+    return header(s) + """
+E = enum.Enum('E', {S: 1, 'ok': 2})
+@dataclass
+class A(DataClassDictMixin):
+    x: Literal[E[S]]
+def check():
+    eq('from_dict', lambda: A.from_dict({'x': 1}), A(E[S]))
+    eq('to_dict', lambda: A(E[S]).to_dict(), {'x': 1})
+    return OUT
+"""
+
+
+IDENTS = ["a", "x1", "_x"[1:], "é", "中", "ﬁ", "ª", "camelCase", "x_y", "Āb", "d", "value", "kwargs", "MISSING", "self", "cls"]
+
+
+def run_src(src: str):
+    """exec the self-contained case; returns (failures, sentinel_hits)"""
+    hits = []
+    setattr(builtins, SENTINEL, hits)
+    name = "c16_case"
+    mod = types.ModuleType(name)
+    sys.modules[name] = mod
+    out = []
+    try:
+        with warnings.catch_warnings():
+            warnings.simplefilter("ignore")
+            exec(compile(src, "<c16-case>", "exec"), mod.__dict__)
+            out = list(mod.check())
+    except BaseException as e:  # class creation failed (SyntaxError, NameError, ...)
+        if isinstance(e, (KeyboardInterrupt, SystemExit)):
+            raise
+        out = [["class creation / check raised", f"{type(e).__name__}: {str(e)[:300]}", "no exception"]]
+    finally:
+        sys.modules.pop(name, None)
+    return out, list(hits)
+
+
+def alias_cases(rng, s):
+    how = rng.choice(["metadata", "annotated", "config"])
+    fk = rng.choice(list(FIELD_KINDS))
+    opts = {}
+    for o in ("serialize_by_alias", "allow_deserialization_not_by_alias", "forbid_extra_keys", "omit_default", "omit_none",
+              "TO_DICT_ADD_BY_ALIAS_FLAG", "TO_DICT_ADD_OMIT_NONE_FLAG"):
+        if rng.random() < 0.4:
+            opts[o] = True
+    return ("alias-" + how, fk + "|" + ",".join(sorted(opts)), src_alias(s, how, fk, opts))
+
+
+def gen_case(rng, s, pos):
+    if pos in ("alias", "alias2"):
+        return alias_cases(rng, s)
+    if pos == "typeddict":
+        total, codec = rng.random() < 0.5, rng.random() < 0.5
+        return ("typeddict-key", f"total={total},codec={codec}", src_typeddict(s, total, codec))
+    if pos == "discriminator":
+        how = rng.choice(["config", "annotated", "config-forbid"])
+        return ("discriminator-" + how, "", src_discriminator(s, how))
+    if pos in ("literal-str", "literal-bytes", "enum-value", "default"):
+        return (pos, "", src_literal(s, pos.replace("literal-", "")))
+    raise ValueError(pos)
+
+
+POSITIONS = ["alias", "alias2", "typeddict", "discriminator", "literal-str", "literal-bytes", "enum-value", "default"]
+
+
+def in_domain(s: str, pos: str) -> bool:
+    """narrow, stated exclusions (not findings):
+    - an empty discriminator field means 'no field' in the documented API (field: Optional[str]);
+    - a TypedDict key equal to the fixed second key 'other' of the test schema would merge two keys;
+    - an alias equal to the name of the other field 'y' makes two fields read one key (C09's subject)."""
+    if pos == "discriminator":
+        # (a class attribute named like a dunder of every class cannot carry a tag in the test schema)
+        return s != "" and s not in ("a", "b") and not (s.startswith("__") and s.endswith("__"))
+    if pos == "typeddict":
+        return s != "other"
+    if pos in ("alias", "alias2"):
+        return s not in ("y", "x~")
+    if pos == "literal-str":
+        return s not in ("other",) and s + "~" != "other"
+    if pos == "literal-bytes":
+        return s.encode("utf-8", "surrogatepass") not in (b"other",) 
+    return True
+
+
+def classify(pos: str, s: str, fails) -> dict:
+    sig = {"position": pos}
+    if pos.startswith("alias-") and s == "":
+        sig["kind"] = "empty-alias-ignored"
+    elif pos == "literal-enum-member-name":
+        sig["kind"] = "enum-member-name-spliced-raw"
+    else:
+        sig["kind"] = "string-not-data"
+    return sig
+
+
+def oracle(ctx: vlib.Ctx, boost: bool = False):
+    rng = ctx.rng
+    n = ctx.budget(600, 8000)
+    if boost:
+        n *= 2
+    strings = list(CORPUS)
+    while len(strings) < n:
+        strings.append(rand_string(rng, 10))
+    strings = strings[:n]
+    nfail = 0
+    for i, s in enumerate(strings):
+        # every string goes to every position class in the first (corpus) part, then round robin x2
+        poss = POSITIONS if i < len(CORPUS) else [POSITIONS[i % len(POSITIONS)], POSITIONS[(i * 7 + 3) % len(POSITIONS)]]
+        for pos in dict.fromkeys(poss):
+            if not in_domain(s, pos):
+                continue
+            p, variant, src = gen_case(rng, s, pos)
+            fails, hits = run_src(src)
+            ctx.count((p, s))
+            ctx.hist("positions", p)
+            ctx.hist("string_classes", str_class(s))
+            if fails or hits:
+                nfail += 1
+                what = f"{p} [{variant}] with string {s!r}: " + (
+                    "SENTINEL FIRED (schema string was executed); " if hits else "") + "; ".join(
+                    f"{w}: got {g}, expected {e}" for w, g, e in fails[:3])
+                ctx.fail(what[:600], {"entry": "exec(source); check()", "source": src, "string": s, "position": p,
+                                      "variant": variant, "observed": fails[:5], "sentinel_hits": len(hits),
+                                      "expected": "no failures, sentinel not fired"},
+                         classify(p, s, fails))
+            if i < 3:
+                ctx.sample({"position": p, "variant": variant, "string": s, "failures": fails, "sentinel": len(hits)})
+    # named-tuple keys: identifiers only (Python refuses everything else)
+    for j, s in enumerate(IDENTS):
+        for how in ("config", "metadata"):
+            fails, hits = run_src(src_namedtuple(s, how))
+            ctx.count(("namedtuple-" + how, s))
+            ctx.hist("positions", "namedtuple-as-dict-" + how)
+            if fails or hits:
+                ctx.fail(f"namedtuple-as-dict [{how}] with field {s!r}: {fails[:2]}",
+                         {"entry": "exec(source); check()", "source": src_namedtuple(s, how), "string": s,
+                          "position": "namedtuple-as-dict", "observed": fails[:5], "sentinel_hits": len(hits)},
+                         {"position": "namedtuple-as-dict", "kind": "string-not-data"})
+    # known finding (outside the eight listed positions): enum member NAMES in Literal[...]
+    for s in ["a-b", "a b", "it's", f"ok if {_HIT} else E.ok"]:
+        src = src_enum_member_name(s)
+        fails, hits = run_src(src)
+        ctx.count(("literal-enum-member-name", s))
+        ctx.hist("positions", "literal-enum-member-name")
+        if fails or hits:
+            ctx.fail(f"literal-enum-member-name with member name {s!r}: " + ("SENTINEL FIRED; " if hits else "") + str(fails[:1]),
+                     {"entry": "exec(source); check()", "source": src, "string": s, "position": "literal-enum-member-name",
+                      "observed": fails[:5], "sentinel_hits": len(hits)},
+                     classify("literal-enum-member-name", s, fails))
+    return nfail
+
+
+# ---------------------------------------------------------------------------
+# the check
+# ---------------------------------------------------------------------------
+
+THEOREMS = ["C16_repr_lex", "C16_ascii_lex", "C16_repr_bytes_lex", "C16_repr_clean", "C16_raw_plain_lex",
+            "C16_raw_refuted", "C16_sites", "C16_site_literal", "C16_site_literal_bytes"]
+
+
+def k10_evidence(ctx: vlib.Ctx):
+    """the splice table as seen on this run (for the evidence file and for aiming the search)"""
+    import importlib.util
+    spec = importlib.util.spec_from_file_location("k10_splices", os.path.join(vlib.VERIF, "tools", "kernels", "k10_splices.py"))
+    m = importlib.util.module_from_spec(spec)
+    try:
+        spec.loader.exec_module(m)
+        rep = m.report()
+    except Exception as e:
+        ctx.notes.append(f"K10 report failed: {type(e).__name__}: {e}")
+        return None
+    bad = [r for r in rep["sites"] if r["kind"] not in ("KRepr", "KAscii")]
+    ctx.coverage["k10"] = {"rows": len(rep["sites"]), "counts": rep["counts"], "excluded_in_raise": rep["excluded_in_raise"],
+                           "formatted_values_in_source": rep["total_formatted_values"],
+                           "not_ok_rows": [f"{r['kind']} {r['file'].split('/')[-1]}:{r['line']} {r['expr'][:60]} ({r['origin'][:60]})" for r in bad[:20]],
+                           "sites": [f"{r['kind']} {r['file'].split('/')[-1]}:{r['line']} {r['func']} {r['expr'][:40]} <{r['origin'][:30]}> {r['before'][-24:]!r} . {r['after'][:12]!r}"
+                                     for r in rep["sites"]][:80]}
+    for r in rep["sites"]:
+        ctx.hist("k10_origin", r["origin"][:40])
+    return rep
+
+
 def run(ctx: vlib.Ctx):
-    ctx.coverage["rule"] = "TODO"
+    ctx.coverage["rule"] = (
+        "strings: hand-written corpus (quotes, backslash, newline, CR, NUL, braces, %, non-ASCII, combining, non-BMP, lone "
+        "surrogates, U+0085/2028, escape look-alikes, code fragments closing the literal with a sentinel side effect) + random "
+        "strings over that alphabet + random code points; each corpus string goes to every position (metadata/Annotated/Config "
+        "alias x field kind x option subset, TypedDict key, discriminator field Config/Annotated/forbid, Literal str/bytes, enum value, "
+        "default value), random strings to two positions each; distinct = (position, string); named-tuple keys: identifiers only")
+    ctx.assumptions += [
+        "the printable oracle of repr is arbitrary in the theorems except that lone surrogates are not printable (checked for str.isprintable on all code points each run)",
+        "strings are sequences of code points < 0x110000; bytes are < 256",
+        "K10: every producer of generated sub-expressions lives in builder.py/pack.py/unpack.py/common.py; user-supplied pack/unpack callables, "
+        "SerializationStrategy objects and type names are bound by reference/name (C17), not scanned here",
+        "dataclass and named-tuple field names are identifiers (enforced by Python); enum member names are not (known finding)",
+    ]
+    ctx.trusted += [
+        "PyStrLit.v: py_repr / py_ascii / py_repr_bytes / lex_string / lex_bytes model CPython 3.12 unicode_repr, bytes_repr and the "
+        "tokenizer + literal evaluation for non-prefixed and b-prefixed literals (compared with repr/ascii/tokenize+compile each run); "
+        "\\N{name} escapes are not modelled (lexer answers None)",
+        "tools/kernels/k10_splices.py: the abstract interpreter over the generator's AST and its explicit origin rules "
+        "(PARAM_RULES, ATTR_RULES, EXPR_RULES, CALL_RULES): what counts as DATA, CODE, identifier",
+        "site_ok looks at the static text of the f-string around the value (before: no quote/#/backslash, last char not an identifier "
+        "char; after: not a quote), not at text contributed by other placeholders of the same line",
+    ]
+    br = ctx.theorems("props/C16_strings.vo", THEOREMS, kernels=["K10"])
+    rep = k10_evidence(ctx)
     model_tie(ctx)
+    broken = bool(ctx.unshown)
+    oracle(ctx, boost=broken)
 
 
 def replay(rep: dict) -> int:
-    return 2
+    src = rep.get("source")
+    if not src:
+        print("replay file names a broken obligation, no failing input:", json.dumps(rep.get("not_shown", rep), indent=1)[:3000])
+        return 2
+    fails, hits = run_src(src)
+    print("position:", rep.get("position"), "string:", repr(rep.get("string")))
+    print("failures:", fails)
+    print("sentinel hits:", len(hits))
+    if fails or hits:
+        print("REPRODUCED")
+        return 1
+    print("not reproduced")
+    return 0
